@@ -65,3 +65,41 @@ def run(prog, chk):
         r2.ok("SET_V1-under-version-1", "%d stores" % len(v1))
     else:
         r2.violation(fn.file, fn.name, v1[0][2].get("l"), "SET_V1-guard", "SET_V1 is applied without testing cif_version == 1")
+
+    r3 = chk.rule("R3-other-version-comment-selects-cif1", "cif_parse_internal turns a leading version comment that is not the 2.0 one "
+                  "into CIF 1.1: an assignment cif_version = 1 is guarded by a successful comparison of the token with the "
+                  "version-independent magic prefix (the provisional version may be 2 when prefer_cif2 is positive)", floor=1)
+    from .c02 import PREFIX_LEN, array_ints
+    prefix = [ord(ch) for ch in "#\\#CIF_"]
+    sites = []
+    for (b, i, r, n) in fn.calls():
+        if n.get("callee") not in ("u_strncmp", "memcmp", "u_memcmp", "strncmp") or len(n.get("args", [])) < 3:
+            continue
+        if const(n["args"][2]) != PREFIX_LEN:
+            continue
+        arr = None
+        for a in n["args"][:2]:
+            g = prog.globals.get(path(strip(a)) or "")
+            ints = array_ints(g) if g else None
+            if ints and list(ints[:PREFIX_LEN]) == prefix:
+                arr = path(strip(a))
+        if arr:
+            sites.append((b, i, r, n, arr))
+    ok_site = None
+    for (b, i, r, n, arr) in sites:
+        def eq0(cnd, cid=n.get("id")):
+            z = cfgq.zero_test(cnd, lambda e: strip(e).get("id") == cid)
+            return None if z is None else ("true" if z == "true" else "false")
+        ge = cfgq.guard_edges(fn, eq0)
+        for (b2, i2, r2, a) in fn.eval_sites("asg"):
+            if (path(strip(a.get("lhs"))) or "").endswith("cif_version") and const(a.get("rhs")) == 1 and a.get("op") == "=":
+                if ge and cfgq.must_pass_edge(fn, b2.id, ge):
+                    ok_site = (n, a, arr)
+    if ok_site:
+        r3.ok("cif_version=1-under-prefix-match", "`%s` compared over %d characters at L%s guards cif_version = 1 at L%s"
+              % (ok_site[2], PREFIX_LEN, ok_site[0].get("l"), ok_site[1].get("l")))
+    else:
+        r3.violation(fn.file, fn.name, fn.line, "other-version-comment-not-recognised",
+                     "no assignment `cif_version = 1` in cif_parse_internal is guarded by a match of the token with the %d-character "
+                     "prefix common to all CIF version comments: when the provisional version is 2 (prefer_cif2 positive, encoding "
+                     "forced) a `#\\#CIF_1.1` comment no longer selects CIF 1.1" % PREFIX_LEN)
